@@ -121,7 +121,8 @@ def run_case(ctx, kind, rng, idx):
     san = ctx.spec.get('variant') == 'asan'
     quick = ctx.spec.get('tier') == 'quick'
     C = mc.strongly_connected_counts(
-        rng, nmin=2, nmax=6 if san else (8 if quick else 12), asym=asym)
+        rng, nmin=2, nmax=6 if san else (8 if quick else 12), asym=asym,
+        allow_periodic=not quick)
     if rng.random() < 0.15:
         C = C + C.T          # exactly symmetric input
     if rng.random() < 0.2:
